@@ -16,6 +16,7 @@ From AV Require Import Model.D16.
 From AV Require Import Base.ITree Model.D00 Model.D01 Model.D06.
 From AV Require Import Model.D10.
 From AV Require Import Base.ITree Model.D00 Model.D01 Model.D04 Model.D06 Model.D07 Model.D15.
+From AV Require Import Model.D19.
 Import ListNotations.
 
 Definition dispatch (prop op : nat) (t : itree) : itree :=
@@ -39,5 +40,6 @@ Definition dispatch (prop op : nat) (t : itree) : itree :=
   | 10 => d10 op t              (* C10 and C11 share the regex ops *)
   | 11 => d10 op t
   | 15 => d15 op t
+  | 19 => d19 op t
   | _ => bad_input
   end.
